@@ -13,7 +13,9 @@ import (
 // Histories for C02.  One PRNG; everything a history contains derives from it.
 //
 // Layout of a history (op lines of the `fs` protocol):
-//	reset / new 0 disk / new 1 mem
+//	reset / new 0 disk / new 1 mem      — or, one history in four, the pairing "memory child view against
+//	                                      disk root": new 101 mem / write 101 <sibling> / mkdir 101 <base> /
+//	                                      view 1 101 <base>, so that the memory twin (id 1) is a VIEW
 //	every call is made twice, first on the disk side (even id 2k), then on the memory twin (odd id 2k+1);
 //	handle k = 0 is the filespace itself, `view` opens handle k+1, k+2 … on both sides
 //	`dump 0`, `dump 1` after every mutating pair; `hostsnap 0` now and then and at the end
@@ -410,8 +412,26 @@ func (h *Hist) History(outside bool) []string {
 	h.outside, h.left = outside, false
 	h.emit("reset")
 	h.emit("new 0 disk")
-	h.emit("new 1 mem")
-	h.Ref.Line([]string{"new", "1", "mem"})
+	if h.R.Chance(1, 4) {
+		// the pairing "memory CHILD VIEW against disk ROOT": the memory twin (id 1) is a view, at a base one or
+		// two names deep, of an auxiliary memory filespace (id 101) that also holds a sibling of that base
+		h.Count["histories:memview-vs-diskroot"]++
+		base := []string{h.name()}
+		if h.R.Chance(1, 2) {
+			base = append(base, h.name())
+		}
+		pre := []string{"new 101 mem",
+			"write 101 " + hp(base[0]+"x") + " " + hx.Enc([]byte("sibling")),
+			"mkdir 101 " + hp(h.G.Spell(base)),
+			"view 1 101 " + hp(h.G.Spell(base))}
+		for _, l := range pre {
+			h.emit("%s", l)
+			h.Ref.Line(strings.Split(l, " "))
+		}
+	} else {
+		h.emit("new 1 mem")
+		h.Ref.Line([]string{"new", "1", "mem"})
+	}
 	n := 6 + h.R.Intn(30)
 	for i := 0; i < n; i++ {
 		var c cand
